@@ -180,7 +180,6 @@ def stepMore (st : St) (fields : List String) : Option (M St) :=
   | "matmul" :: _ => some do
       let ((j, sb), st) ← pop1 st
       let ((i, sa), st) ← pop1 st
-      if i.seen.shape.isConst && j.seen.shape.isConst then .error "matmul-const-const" else
       let o ← need (transferMatmul i j) "transfer"
       let t ← need (refMatmul sa sb) "ref-shape"
       pure { st with stack := (o, t) :: st.stack }
